@@ -12,7 +12,7 @@ use tokio::sync::broadcast;
 use tokio::sync::mpsc::{self, UnboundedReceiver, UnboundedSender};
 
 use std::collections::HashSet;
-use std::sync::{Arc, RwLock};
+use std::sync::{Arc, Mutex, RwLock};
 
 use scru128::Scru128Id;
 
@@ -176,6 +176,10 @@ pub struct Store {
     contexts: Arc<RwLock<HashSet<Scru128Id>>>,
     broadcast_tx: broadcast::Sender<Frame>,
     gc_tx: UnboundedSender<GCTask>,
+    // Held by append over {assign id, store, broadcast} and by a following read while it
+    // subscribes, so ids are committed and broadcast in id order and a subscription
+    // starts at a clean cut between two appends.
+    append_lock: Arc<Mutex<()>>,
 }
 
 impl Store {
@@ -214,6 +218,7 @@ impl Store {
             contexts: Arc::new(RwLock::new(contexts)),
             broadcast_tx,
             gc_tx,
+            append_lock: Arc::new(Mutex::new(())),
         };
 
         // Load context registrations
@@ -249,10 +254,14 @@ impl Store {
         // Only take broadcast subscription if following. We initate the subscription here to
         // ensure we don't miss any messages between historical processing and starting the
         // broadcast subscription.
-        let broadcast_rx = if should_follow {
-            Some(self.broadcast_tx.subscribe())
+        // `cut` is an id newer than every append that completed before the subscription and
+        // older than every append after it: the historical scan delivers the frames up to
+        // `cut`, the subscription everything after it (ephemeral frames included).
+        let (broadcast_rx, cut) = if should_follow {
+            let _guard = self.append_lock.lock().unwrap();
+            (Some(self.broadcast_tx.subscribe()), Some(scru128::new()))
         } else {
-            None
+            (None, None)
         };
         #[cfg(feature = "verif")]
         crate::verif::sync("read.subscribed", None, verif_reader);
@@ -268,18 +277,20 @@ impl Store {
 
             // Spawn OS thread to handle historical events
             std::thread::spawn(move || {
-                let mut last_id = None;
                 let mut count = 0;
 
                 for frame in store.iter_frames(options.context_id, options.last_id.as_ref()) {
+                    // Appended after we subscribed: the subscription delivers it
+                    if cut.is_some_and(|cut| frame.id > cut) {
+                        break;
+                    }
+
                     if let Some(TTL::Time(ttl)) = frame.ttl.as_ref() {
                         if is_expired(&frame.id, ttl) {
                             let _ = gc_tx.send(GCTask::Remove(frame.id));
                             continue;
                         }
                     }
-
-                    last_id = Some(frame.id);
 
                     if let Some(limit) = options.limit {
                         if count >= limit {
@@ -311,8 +322,8 @@ impl Store {
 
                 #[cfg(feature = "verif")]
                 crate::verif::sync("hist.done", None, verif_reader);
-                // Signal completion with the last seen ID and count
-                let _ = done_tx.send((last_id, count));
+                // Signal completion with the cut and the count
+                let _ = done_tx.send((cut, count));
             });
 
             Some(done_rx)
@@ -347,9 +358,9 @@ impl Store {
                             }
                         }
 
-                        // Skip if we've already seen this frame during historical scan
-                        if let Some(last_scanned_id) = last_id {
-                            if frame.id <= last_scanned_id {
+                        // Skip what the historical scan was responsible for
+                        if let Some(cut) = last_id {
+                            if frame.id <= cut {
                                 continue;
                             }
                         }
@@ -546,6 +557,7 @@ impl Store {
     pub fn append(&self, mut frame: Frame) -> Result<Frame, crate::error::Error> {
         #[cfg(feature = "verif")]
         crate::verif::sync("append.enter", Some(&frame), 0);
+        let _guard = self.append_lock.lock().unwrap();
         frame.id = scru128::new();
         #[cfg(feature = "verif")]
         crate::verif::sync("append.id", Some(&frame), 0);
